@@ -1,6 +1,7 @@
 //! tasksim — task-level deterministic simulator for jplatte/eyeball (see /verif/DESIGN.md).
 
 mod common;
+mod lin;
 mod obsworld;
 mod rng;
 mod runner;
@@ -71,6 +72,7 @@ fn parse_args() -> Args {
             "--no-kf-retire" => a.kf_retire = false,
             "--out" => a.out_dir = it.next().unwrap(),
             s if a.cmd == "replay" && a.file.is_none() => a.file = Some(s.to_string()),
+            s if a.cmd == "run-case" && !a.prop.is_empty() && a.file.is_none() => a.file = Some(s.to_string()),
             s if a.prop.is_empty() => a.prop = s.to_string(),
             s => {
                 eprintln!("unexpected argument {s}");
@@ -81,7 +83,7 @@ fn parse_args() -> Args {
     a
 }
 
-fn run_check<K: Check>(check: &K, a: &Args, level: &str, quick_runs: u64, thorough_secs: u64) -> i32 {
+fn run_check<K: Check>(check: &K, a: &Args, level: &str, quick_runs: u64, thorough_secs: u64) -> (i32, Option<serde_json::Value>) {
     let (max_runs, time_limit) = match (a.runs, a.secs, a.tier.as_str()) {
         (Some(r), s, _) => (r, s.map(Duration::from_secs)),
         (None, Some(s), _) => (u64::MAX / 2, Some(Duration::from_secs(s))),
@@ -124,17 +126,50 @@ fn run_check<K: Check>(check: &K, a: &Args, level: &str, quick_runs: u64, thorou
         }
         extra = serde_json::json!({"violation": v, "replay": path});
     }
-    if a.evidence && code != 2 {
-        let ev = evidence_json(check, &a.tier, level, a.seed, &res, if code == 1 { 1 } else { 0 }, extra);
-        let dir = format!("{}/evidence", a.out_dir);
-        let _ = std::fs::create_dir_all(&dir);
-        std::fs::write(format!("{}/{}.json", dir, check.prop()), serde_json::to_string_pretty(&ev).unwrap()).unwrap();
-    }
-    code
+    let ev = if code != 2 { Some(evidence_json(check, &a.tier, level, a.seed, &res, if code == 1 { 1 } else { 0 }, extra)) } else { None };
+    (code, ev)
 }
 
-/// Known findings (never written at run time): for every listed finding that concerns this
-/// property, run its minimal scenario with retirement off and report it if it still fails.
+fn write_evidence(a: &Args, prop: &str, ev: &serde_json::Value) {
+    if !a.evidence {
+        return;
+    }
+    let dir = format!("{}/evidence", a.out_dir);
+    let _ = std::fs::create_dir_all(&dir);
+    std::fs::write(format!("{}/{}.json", dir, prop), serde_json::to_string_pretty(ev).unwrap()).unwrap();
+}
+
+/// One property decided by several run families (worlds): evaluations and distinct counts are sums.
+fn merge_evidence(parts: Vec<(&str, serde_json::Value)>) -> serde_json::Value {
+    let mut it = parts.into_iter();
+    let (n0, mut base) = it.next().unwrap();
+    let mut worlds = serde_json::Map::new();
+    let strip = |c: &serde_json::Value| {
+        let mut c = c.clone();
+        if let Some(o) = c.as_object_mut() {
+            o.remove("rule");
+            o.remove("samples");
+        }
+        c
+    };
+    worlds.insert(n0.to_string(), strip(&base["coverage"]));
+    for (name, ev) in it {
+        let (cb, ce) = (base["coverage"].clone(), ev["coverage"].clone());
+        base["coverage"]["evaluations"] = serde_json::json!(cb["evaluations"].as_u64().unwrap_or(0) + ce["evaluations"].as_u64().unwrap_or(0));
+        base["coverage"]["distinct_nontrivial"] = serde_json::json!(cb["distinct_nontrivial"].as_u64().unwrap_or(0) + ce["distinct_nontrivial"].as_u64().unwrap_or(0));
+        let mut s = cb["samples"].as_array().cloned().unwrap_or_default();
+        s.truncate(2);
+        s.extend(ce["samples"].as_array().cloned().unwrap_or_default().into_iter().take(2));
+        base["coverage"]["samples"] = serde_json::json!(s);
+        base["wall_s"] = serde_json::json!(base["wall_s"].as_f64().unwrap_or(0.0) + ev["wall_s"].as_f64().unwrap_or(0.0));
+        base["violations"] = serde_json::json!(base["violations"].as_u64().unwrap_or(0) + ev["violations"].as_u64().unwrap_or(0));
+        worlds.insert(name.to_string(), strip(&ce));
+    }
+    base["coverage"]["per_world"] = serde_json::Value::Object(worlds);
+    base["coverage"]["rule"] = serde_json::json!(format!("{} Several run families decide this property; the top-level counts are sums over them, per_world has each family's own counters.", base["coverage"]["rule"].as_str().unwrap_or("")));
+    base
+}
+
 fn report_known_findings(a: &Args) -> Result<(), String> {
     let path = format!("{}/known_findings.json", a.out_dir);
     let Ok(text) = std::fs::read_to_string(&path) else { return Ok(()) };
@@ -184,6 +219,10 @@ fn replay(a: &Args) -> i32 {
             let check = obsworld::check::ObsCheck { prop: rf.property.clone() };
             replay_with(&check, &rf, &path)
         }
+        "async-contention" => {
+            let rf: ReplayFile<obsworld::asyncsim::ACase> = serde_json::from_str(&text).unwrap();
+            replay_with(&obsworld::acheck::AsyncCheck, &rf, &path)
+        }
         w => {
             eprintln!("unknown world {w}");
             2
@@ -224,18 +263,66 @@ fn main() {
                 eprintln!("harness error: {e}");
                 std::process::exit(2);
             }
-            if VEC_PROPS.contains(&a.prop.as_str()) {
-                let check = vecworld::check::VecCheck { prop: a.prop.clone(), kf_retire: a.kf_retire };
-                run_check(&check, &a, "exploration", 2_000_000, 240)
-            } else if OBS_PROPS.contains(&a.prop.as_str()) {
-                let check = obsworld::check::ObsCheck { prop: a.prop.clone() };
-                run_check(&check, &a, "exploration", 2_000_000, 240)
-            } else {
-                eprintln!("unknown property {}", a.prop);
-                2
+            let half = |a: &Args| -> Args {
+                // two run families share the budget
+                Args { cmd: a.cmd.clone(), prop: a.prop.clone(), tier: a.tier.clone(), seed: a.seed, runs: a.runs.map(|r| r / 2), secs: a.secs.map(|s| (s / 2).max(1)), jobs: a.jobs, file: None, evidence: a.evidence, out_dir: a.out_dir.clone(), kf_retire: a.kf_retire }
+            };
+            match a.prop.as_str() {
+                "C16" => {
+                    let h = half(&a);
+                    let (c1, e1) = run_check(&obsworld::check::ObsCheck { prop: "C16".into() }, &h, "exploration", 1_000_000, 120);
+                    let (c2, e2) = if c1 == 0 { run_check(&obsworld::acheck::AsyncCheck, &h, "exploration", 1_000_000, 120) } else { (0, None) };
+                    let parts: Vec<(&str, serde_json::Value)> = [("differential (same histories as the sync flavour)", e1), ("contention (tasks, held guards, cancellation)", e2)].into_iter().filter_map(|(n, e)| e.map(|e| (n, e))).collect();
+                    if !parts.is_empty() && c1.max(c2) != 2 {
+                        write_evidence(&a, "C16", &merge_evidence(parts));
+                    }
+                    c1.max(c2)
+                }
+                "C20" => {
+                    let h = half(&a);
+                    let (c1, e1) = run_check(&vecworld::check::VecCheck { prop: "C20".into(), kf_retire: a.kf_retire }, &h, "exploration", 1_000_000, 120);
+                    let (c2, e2) = if c1 == 0 { run_check(&obsworld::check::ObsCheck { prop: "C20".into() }, &h, "exploration", 1_000_000, 120) } else { (0, None) };
+                    let parts: Vec<(&str, serde_json::Value)> = [("vector world", e1), ("observable world (both lock flavours)", e2)].into_iter().filter_map(|(n, e)| e.map(|e| (n, e))).collect();
+                    if !parts.is_empty() && c1.max(c2) != 2 {
+                        write_evidence(&a, "C20", &merge_evidence(parts));
+                    }
+                    c1.max(c2)
+                }
+                p if VEC_PROPS.contains(&p) => {
+                    let check = vecworld::check::VecCheck { prop: a.prop.clone(), kf_retire: a.kf_retire };
+                    let (c, e) = run_check(&check, &a, "exploration", 2_000_000, 240);
+                    if let Some(e) = e {
+                        write_evidence(&a, p, &e);
+                    }
+                    c
+                }
+                p if OBS_PROPS.contains(&p) => {
+                    let check = obsworld::check::ObsCheck { prop: a.prop.clone() };
+                    let (c, e) = run_check(&check, &a, "exploration", 2_000_000, 240);
+                    if let Some(e) = e {
+                        write_evidence(&a, p, &e);
+                    }
+                    c
+                }
+                _ => {
+                    eprintln!("unknown property {}", a.prop);
+                    2
+                }
             }
         }
         "replay" => replay(&a),
+        "run-case" => {
+            // debugging aid: tasksim run-case <world> <case.json>
+            let text = std::fs::read_to_string(a.file.clone().unwrap_or_default()).unwrap_or_default();
+            let out = match a.prop.as_str() {
+                "vector" => vecworld::exec::run_case(&serde_json::from_str(&text).unwrap()).outcome,
+                "observable" => obsworld::exec::run_case(&serde_json::from_str(&text).unwrap()),
+                _ => obsworld::asyncsim::run_async_case(&serde_json::from_str(&text).unwrap()),
+            };
+            println!("{:?}", out.violation);
+            println!("{:?}", out.counters);
+            0
+        }
         _ => {
             eprintln!("usage: tasksim check <PROP> [--tier quick|thorough] [--seed N] [--runs N] [--secs N] [--jobs N] | tasksim replay <file>");
             2
